@@ -442,6 +442,7 @@ func (q *Queue) tryDelivery(meta *QueueMetadata, header textproto.Header, body b
 	// No recipients to try, either all failed or all succeeded.
 	if len(newRcpts) == 0 {
 		q.removeFromDisk(meta.MsgMeta)
+		verifEv(q, meta, "Quiesced", nil)
 		return
 	}
 
@@ -491,6 +492,7 @@ func (q *Queue) deliver(meta *QueueMetadata, header textproto.Header, body buffe
 	mailCtx, mailTask := trace.NewTask(msgCtx, "MAIL FROM")
 	delivery, err := q.Target.Start(mailCtx, msgMeta, meta.From)
 	mailTask.End()
+	verifEv(q, meta, "TStart", err)
 	if err != nil {
 		dl.Debugf("target.Start failed: %v", err)
 		for _, rcpt := range meta.To {
@@ -499,6 +501,7 @@ func (q *Queue) deliver(meta *QueueMetadata, header textproto.Header, body buffe
 		return perr
 	}
 	dl.Debugf("target.Start OK")
+	delivery = verifWrapDelivery(q, meta, delivery)
 
 	var acceptedRcpts []string
 	for _, rcpt := range meta.To {
@@ -617,6 +620,7 @@ func (qd *queueDelivery) Commit(ctx context.Context) error {
 		panic("queue: double Commit")
 	}
 
+	verifAccept(qd.q, qd.meta)
 	qd.q.wheel.Add(time.Time{}, queueSlot{
 		ID:   qd.meta.MsgMeta.ID,
 		Meta: qd.meta,
@@ -989,6 +993,7 @@ func (q *Queue) emitDSN(meta *QueueMetadata, header textproto.Header, failedRcpt
 	mailCtx, mailTask := trace.NewTask(msgCtx, "MAIL FROM")
 	dsnDelivery, err := q.dsnPipeline.Start(mailCtx, dsnMeta, "")
 	mailTask.End()
+	dsnDelivery = verifWrapDSN(q, meta, failedRcpts, dsnDelivery)
 	if err != nil {
 		dl.Error("failed to enqueue DSN", err, "dsn_id", dsnID)
 		return
